@@ -15,7 +15,7 @@ from vlib.common import Ob
 KEY_K4 = "K4:out-of-order-arrival-assigned-after-its-first-eligible-step"
 
 
-def capture_episode(cfg, augment=False):
+def capture_episode(cfg, augment=False, conn_dist=None, window=1):
     """build nodes with oracle delay distributions, run the real generate_graphs once and grab the vmapped `episode` closure"""
     import jax
     import jax.numpy as jnp
@@ -37,7 +37,8 @@ def capture_episode(cfg, augment=False):
     ra, rb = cfg["rates"]
     a = BaseNode(name="a", rate=ra, delay=0.0, delay_dist=StaticDist(rng=jax.random.PRNGKey(0), dist=VDist("comp_a")))
     b = BaseNode(name="b", rate=rb, delay=0.0, delay_dist=StaticDist(rng=jax.random.PRNGKey(0), dist=VDist("comp_b")))
-    b.connect(a, blocking=False, skip=cfg["skip"], window=1, delay=cfg["phase_b"], delay_dist=StaticDist(rng=jax.random.PRNGKey(0), dist=VDist("comm_ab")))
+    b.connect(a, blocking=False, skip=cfg["skip"], window=window, delay=cfg["phase_b"],
+              delay_dist=conn_dist if conn_dist is not None else StaticDist(rng=jax.random.PRNGKey(0), dist=VDist("comm_ab")))
     nodes = {"a": a, "b": b}
     captured = {}
     orig_vmap = jax.vmap
